@@ -72,6 +72,15 @@ def arith(op, a, b):
         if op == 'matmul':
             return app('dot', x, y)
         return app(op, x, y)
+    if op == 'mul':
+        # rows * column_vector[:, None]
+        for rows, col in ((a, b), (b, a)):
+            ca = col.single_atom() if isinstance(col, Poly) else None
+            if isinstance(rows, Tup) and ca is not None and ca[0] == 'idx' and ca[1][0] == 'val' and isinstance(ca[1][1], Tup) \
+                    and len(ca[1][1]) == len(rows) and isinstance(ca[2], Tup) and len(ca[2]) == 2 \
+                    and isinstance(ca[2].items[0], Slice) and ca[2].items[0] == Slice(NONE, NONE) and ca[2].items[1] == NONE \
+                    and all(_arrayish(r) for r in rows.items):
+                return Tup([P(r) * P(x) for r, x in zip(rows.items, ca[1][1].items)], 'vec')
     r = lift(f, a, b)
     return r if r is not None else app(op, P(a), P(b))
 
@@ -441,6 +450,30 @@ ARRAY_METHODS_MUTATE = {
     'update', 'remove', 'reverse', 'setdefault', 'add', 'discard', 'setflags', 'partition',
 }
 
+def _arrayish(v):
+    """a known array (not a scalar) by construction"""
+    if not isinstance(v, Poly) or not v.terms:
+        return False
+    for m, _ in v.terms:
+        if not any(a[0] == 'app' and a[1] in ('ones', 'zeros', 'm:ravel', 'ravel', 'arange', 'linspace', 'm:flatten')
+                   for a, _ in m):
+            return False
+    return True
+
+
+def h_einsum(ip, st, args, kw, node):
+    """Row / column scalings of a matrix given as a list of row arrays are carried out."""
+    if len(args) == 3 and isinstance(args[0], Const) and isinstance(args[1], Tup) and not kw \
+            and all(isinstance(r, Poly) for r in args[1].items):
+        spec, rows, b = args[0].value.replace(' ', ''), args[1].items, args[2]
+        if spec == 'ij,i->ij' and isinstance(b, Tup) and len(b) == len(rows) and all(isinstance(x, (Poly, Const)) for x in b.items):
+            return Tup([r * P(x) for r, x in zip(rows, b.items)], 'vec')
+        if spec == 'ij,j->ij' and isinstance(b, Poly) and all(_arrayish(r) for r in rows):
+            return Tup([r * b for r in rows], 'vec')
+    return h_generic('einsum')(ip, st, args, kw, node)
+
+
+HANDLERS['numpy.einsum'] = h_einsum
 # overrides of the generic entries above
 HANDLERS['zip'] = h_zip
 HANDLERS['enumerate'] = h_enumerate
